@@ -473,10 +473,13 @@ impl Hp {
 	fn outside(&self) -> String {
 		self.other.clone()
 	}
+	pub fn ext2(&self, k: u64) -> u64 {
+		self.ext(k).wrapping_add(self.mask)
+	}
 }
 pub fn t_result(a: u64, b: u64, c: u64) -> u64 {
 	let hp = Hp { keys: [a, b, c, a ^ b], mask: c | 0xff, other: "xyz".to_string() };
-	hp.node(a, b & 1).unwrap() ^ hp.ext(c)
+	hp.node(a, b & 1).unwrap() ^ hp.ext(c) ^ hp.ext2(a)
 }
 #[derive(Clone, Copy, Debug, PartialEq)]
 pub enum Kf {
